@@ -236,6 +236,10 @@ func VH_C19() {
 	maxArg := vParam("arg", 2)
 	steps := vParam("steps", 2)
 	pre := vString(fill)
+	if vParam("runes", 0) == 1 {
+		// well-formed multi-byte content in front of the arbitrary bytes: U+FFFD itself (EF BF BD), a 2- and a 4-byte rune
+		pre = []string{"\uFFFD", "\u00e9", "\U0001F600", "a\uFFFDb"}[vChoose(4)] + pre
+	}
 	spare := vChoose(vParam("spare", 2) + 1)
 	b1 := make([]byte, len(pre), len(pre)+spare)
 	b2 := make([]byte, len(pre), len(pre)+spare)
